@@ -79,3 +79,31 @@ def check(ck, pid, *, only=None, parts=6, rows=None, nontrivial=None):
         ck.observe(key, "%s in %d real run(s); first: %s" % (key, len(lst), json.dumps(brief)[:900]),
                    dict(rows=[dict(cfg=x["cfg"], ev=x["ev"][:400]) for x in lst[:3]]))
     return rows
+
+
+def extra(ck, pid, sub, fname, describe=None):
+    """Run another harness sub-command producing F1Run traces and validate them for property pid."""
+    binary = vlib.build_harness()
+    with vlib.Scratch("verif-x-") as d:
+        rc, out = vlib.run_drive(binary, sub, ["-out", d, "-tier", ck.tier, "-seed", ck.seed], timeout=1800)
+        rows = vlib.read_ndjson(os.path.join(d, fname))
+        res, bad = vlib.validate_rows("F1Run", "Trace_F1Run_%s.cfg" % pid, os.path.join(d, fname), var="tr", workers=8, timeout=1500)
+    ck.add_tlc("Trace_F1Run_%s.cfg/%s" % (pid, sub), res)
+    ck.traces += len(rows)
+    ck.evaluations += len(rows)
+    for r in rows:
+        ck.add_distinct(sub + ":" + r["cfg"]["args"][:300])
+    w = whys(res.output, pid)
+    groups = {}
+    for k in bad:
+        r = rows[k - 1]
+        if r["err"]:
+            raise vlib.MachineryError("%s harness error: %s" % (sub, r["err"]))
+        for reason in sorted(w.get(k, {"%s:unparsed" % pid})):
+            groups.setdefault(reason + "@" + r["cfg"]["name"], []).append(r)
+    for key, lst in groups.items():
+        r = lst[0]
+        ck.observe(key, "%s in %d %s trace(s); first: %s" % (key, len(lst), sub, json.dumps(
+            dict(args=r["cfg"]["args"], ev=[[e["k"], e["a"], e["b"], e["d"]] for e in r["ev"][:60]]))[:1200]),
+            dict(rows=lst[:3]))
+    return rows
